@@ -9,7 +9,8 @@ REDUCTIONS = ["dpor", "sdpor", "odpor"]
 class C38(core.Prop):
     id = "C38"
     drivers = ["s4u_interp"]
-    sizes = {"quick": 24, "thorough": 2000}
+    ready = True
+    sizes = {"quick": 24, "thorough": 300}
     max_workers = 8
     technique = ("property-based differential testing (Hypothesis): the set of terminal outcomes and the deadlock/assertion verdict of "
                  "simgrid-mc under every reduction vs an independent all-interleavings reference explorer and vs reduction none")
